@@ -95,6 +95,7 @@ CLAIMED = {
 EXTRA = {
     "C03": "Also decided: the next-step constructor that takes an end time differs from the one that does not in nothing but m_end_time (the last state of a schedule is built without one); where an update method installs a new value only if it compares different (Well::update*, Group::updateProduction, GuideRateConfig::update_model), the operator== of that class compares every data member; a local variable named after a record item is initialised from the item of that name.",
     "C13": "Also decided: make_grid_units, EclipseGrid::save and the EGRID loader map the grid length-unit names METRES/FEET/CM to the same unit system.",
+    "C18": "Also decided: an empty or cleared match is no set at all (MatchingEntities never keeps an empty-but-present set), so that false sub-conditions contribute no set to later unions and intersections.",
     "C17": "Also decided: every scalar (reduction) function - SUM, PROD, AVEA, AVEG, AVEH, MAX, MIN, NORM1, NORM2, NORMI - computes its documented formula over the defined values (canonical expression trees including the fold's initial value and step).",
     "C04": "Also decided (shared with C03): a local variable named after a record item is initialised from the item of that name (numbered siblings K1/K2, I1/I2 included).",
     "C12": "Also decided: in Box.cpp every declaration, default look-up, range assertion and extent/offset assignment stays on one axis (i/NX/I*/[0], j/NY/J*/[1], k/NZ/K*/[2]).",
